@@ -118,6 +118,7 @@ impl Read for ScriptedSource {
             *pos += k;
             k
         };
+        let mut carry: Option<Ev> = None;
         let res = match ev {
             None => {
                 let k = give(room.min(left), &mut self.pos);
@@ -129,6 +130,9 @@ impl Read for ScriptedSource {
             }
             Some(Ev::Deliver(n)) => {
                 let k = give(n.min(room).min(left), &mut self.pos);
+                if k > 0 && k < n {
+                    carry = Some(Ev::Deliver(n - k)); // the rest stays ready for the next call
+                }
                 st.delivered += k as u64;
                 if k == 0 {
                     st.terminal = true;
@@ -150,7 +154,11 @@ impl Read for ScriptedSource {
                 Ok(room + 1 + n)
             }
         };
+        drop(give);
         st.stream.extend_from_slice(&stream_add);
+        if let Some(c) = carry {
+            self.events.push_front(c);
+        }
         res
     }
 }
